@@ -18,7 +18,7 @@ PROFILES = {
     "reuse":      dict(w=dict(set=45, get=50, synth=2, setcell=0, setlru=1, evict=2), p_dur=0.1, p_cell=0.0, p_never=0.0, p_cyclic=0.0, restore=0.5),
     "untracked":  dict(w=dict(set=20, get=45, synth=10, setcell=25, setlru=0, evict=0), p_dur=0.3, p_cell=0.6, p_never=0.0, p_cyclic=0.0, idur=True),
     "lru":        dict(w=dict(set=20, get=55, synth=5, setcell=3, setlru=8, evict=9), p_dur=0.1, p_cell=0.1, p_never=0.0, p_cyclic=0.0, lru_heavy=True),
-    "faults":     dict(w=dict(set=25, get=45, synth=4, setcell=3, setlru=2, evict=3, setpanic=18), p_dur=0.1, p_cell=0.1, p_never=0.0, p_cyclic=0.0, p_fault=0.35),
+    "faults":     dict(w=dict(set=25, get=45, synth=4, setcell=3, setlru=2, evict=3, setpanic=14, evfault=6), p_dur=0.1, p_cell=0.1, p_never=0.0, p_cyclic=0.0, p_fault=0.35),
     "panic-cycles": dict(w=dict(set=40, get=50, synth=3, setcell=3, setlru=2, evict=2), p_dur=0.1, p_cell=0.05, p_never=0.0, p_cyclic=1.0),
 }
 
@@ -155,11 +155,15 @@ class Gen:
             elif k == "evict":
                 hist.append(["evict"])
             elif k == "setpanic":
-                hist.append(["setpanic", r.randrange(4), r.choice([0, 1, 1])])
+                # switches 0..3: fault points in bodies; switch 6: the user's PartialEq (backdating)
+                hist.append(["setpanic", r.choice([0, 1, 2, 3, 6, 6]), r.choice([0, 1, 1])])
+            elif k == "evfault":
+                hist.append(["evfault", r.choice(["off", 0, 0, 1, 2, 3])])
         if p.get("p_fault"):
             # the faults stop: afterwards every node is requested (C22: results as a fresh database)
-            for c in range(4):
+            for c in (0, 1, 2, 3, 6):
                 hist.append(["setpanic", c, 0])
+            hist.append(["evfault", "off"])
             for fam in range(3):
                 for k in range(nk):
                     hist.append(["get", fam, k])
@@ -340,9 +344,25 @@ def parse_sx(s):
     return item()
 
 
+def wf_hist(tree):
+    """The properties' premise: a change of untracked state is followed by a new revision
+    (a write or synthetic write) before anything is read."""
+    hist = next((x for x in tree[2:] if isinstance(x, list) and x and x[0] == "hist"), ["hist"])[1:]
+    for i, op in enumerate(hist):
+        if op[0] == "setcell":
+            if i + 1 >= len(hist) or hist[i + 1][0] not in ("set", "synth"):
+                return False
+    return True
+
+
 def shrink(case_text, still_fails, budget=150):
-    """Greedy shrink: drop history ops, drop nodes, replace sub-expressions by literals."""
+    """Greedy shrink: drop history ops, drop nodes, replace sub-expressions by literals.
+    Candidates that leave the well-formed histories (wf_hist) are never considered."""
     tree = parse_sx(case_text)
+    _sf = still_fails
+
+    def still_fails(text):
+        return wf_hist(parse_sx(text)) and _sf(text)
 
     def section(name):
         for it in tree[2:]:
